@@ -97,6 +97,17 @@ func (st *provState) walk(v ssa.Value, depth int) {
 				// stores to that same field address inside this function also feed it
 				if fa, ok := x.X.(*ssa.FieldAddr); ok {
 					st.walkStores(fa, depth)
+					// other address computations of the same field of the same object in this function
+					if fn := x.Parent(); fn != nil {
+						fld := fieldOfAddr(fa)
+						eachInstr(fn, func(in ssa.Instruction) {
+							if s2, ok := in.(*ssa.Store); ok {
+								if fa2, ok := s2.Addr.(*ssa.FieldAddr); ok && fa2 != fa && fa2.X == fa.X && fieldOfAddr(fa2) == fld {
+									st.walk(s2.Val, depth)
+								}
+							}
+						})
+					}
 				}
 				return
 			}
